@@ -54,7 +54,7 @@ def run(ctx, V):
     proofs_ok = vlib.proof_gate(ctx, V, extract=["Extract/ExClient.vo", "Extract/ExEnqueue.vo"])
     exe = pmsim.build(ctx)
     model = C06.build_model(ctx)
-    n = 360 if ctx.tier == "quick" else 15000
+    n = 360 if ctx.tier == "quick" else 6000
     styles = ("healthy", "mixed", "faults")
     scs = [pmcheck.gen_scenario(ctx.rng, style=styles[i % 3]) for i in range(n)]
     # telemetry echo of hostile device bytes: switch telemetry on for client 0 in every third scenario
@@ -92,7 +92,7 @@ def run(ctx, V):
             V.violation("protocol", "client-stream", w, "Spec.Proto.ok_prefix rejects what client %d received" % k)
         elif not dropped and sess.alive_after_script and not sess.wedged and not sess.overrun and v["ok"] != "true":
             V.violation("protocol", "client-stream", w, "client %d was served to the end but its stream is not a sequence of whole protocol tokens (Spec.Proto.ok)" % k)
-    C06.correspond(ctx, V, n=300 if ctx.tier == "quick" else 6000)
+    C06.correspond(ctx, V, n=300 if ctx.tier == "quick" else 4000)
 
 
 def replay(ctx, V, path):
